@@ -30,7 +30,7 @@ def run_sheets(ctx, seed_salt, features, n_quick, n_thorough, depth=3, all_opts=
         sh = gen_hook(g, rng) if gen_hook else g.sheet(nunits=rng.choice([1, 1, 2, 3]), depth=rng.randint(1, depth))
         if sh is None or S.sel_count(sh) > max_sels:
             continue
-        L = S.Layout(rng, wild=wild)
+        L = S.Layout(rng, wild=(rng.random() < wild) if isinstance(wild, float) else wild)
         text = S.show(sh, L)
         if len(text) > 6000:
             continue
